@@ -91,12 +91,12 @@ theorem interp_taylor (N : Nat) (x y : Nat → Rat) (j : Nat) (v δ : Rat) :
 /-- what `Interpolate` / `Derivative(·,k)` return, given the interval `Locate` chose: the cubic and
     its derivatives times the prefactor; order ≥ 4 returns 0 -/
 theorem queries_are_cubic {o o' : Obj} {v : Rat} {j : Nat} (hl : o.locate v = .ok (j, o')) :
-    o.interpolate v = .ok (o.pref * cubic o.N o.x o.y j v, o')
+    o.interpolate v = .ok (o.valueAt j v, o')
     ∧ o.derivative v 1 = .ok (o.pref * cubicD1 o.N o.x o.y j v, o')
     ∧ o.derivative v 2 = .ok (o.pref * cubicD2 o.N o.x o.y j v, o')
     ∧ o.derivative v 3 = .ok (o.pref * cubicD3 o.N o.x o.y j, o')
     ∧ ∀ k, 4 ≤ k → o.derivative v k = .ok (0, o') :=
-  ⟨interpolate_eq hl, derivative_eq hl⟩
+  ⟨interpolate_eq_valueAt hl, derivative_eq hl⟩
 
 /-! ## 3. The Steffen limiter -/
 
@@ -185,9 +185,58 @@ theorem interpolate_fresh_between (o : Obj) (hN : 2 ≤ o.N) (hx : StrictInc o.N
     ∃ j o' r, o.interpolate v = .ok (r, o') ∧ j + 1 < o.N ∧ o.x j ≤ v ∧ v ≤ o.x (j + 1)
       ∧ rmin (o.pref * o.y j) (o.pref * o.y (j + 1)) ≤ r ∧ r ≤ rmax (o.pref * o.y j) (o.pref * o.y (j + 1)) := by
   obtain ⟨j, o', hl, hj, hb0, hb1⟩ := locate_fresh_bracket o hN hx hst h0 h1
-  refine ⟨j, o', _, interpolate_eq hl, hj, hb0, hb1, ?_⟩
+  refine ⟨j, o', _, interpolate_eq hl (valueAt_eq_cubicAt hx hj hb0 hb1), hj, hb0, hb1, ?_⟩
   have := cubicAt_between_neighbours o hx hj hb0 hb1
   rwa [cubicAt_eq] at this
+
+/-- `Interpolate` as coded (fix 5863798) at the knots: at every knot but the last the located interval's cubic is
+    evaluated at offset 0 and returns `d[k] = y_k`; at the last abscissa the code's own branch returns
+    `prefactor * function_values[N-1]` whatever interval was located — no arithmetic is involved, so this clause
+    is exact in doubles as well (the comparator demands bit-equality at every knot) -/
+theorem valueAt_at_every_knot (o : Obj) (hx : StrictInc o.N o.x) :
+    (∀ k, k + 1 < o.N → o.valueAt k (o.x k) = o.pref * o.y k)
+    ∧ (∀ j, o.valueAt j (o.x (o.N - 1)) = o.pref * o.y (o.N - 1)) := by
+  refine ⟨fun k hk => ?_, fun j => valueAt_last o j⟩
+  have hne : o.x k ≠ o.x (o.N - 1) := ne_of_lt (hx.lt (by omega) (by omega))
+  rw [valueAt_of_ne hne, cubicAt_eq, cubic_left]
+
+/-- the fix is value-neutral over the rationals: whenever the located interval brackets the abscissa the branch
+    returns what the cubic returns -/
+theorem fix_5863798_noop {o : Obj} (hx : StrictInc o.N o.x) {j : Nat} (hj : j + 1 < o.N) {v : Rat}
+    (h0 : o.x j ≤ v) (h1 : v ≤ o.x (j + 1)) : o.valueAt j v = o.cubicAt j v := valueAt_eq_cubicAt hx hj h0 h1
+
+/-- request level: a fresh object returns exactly `prefactor * y_k` at EVERY tabulated abscissa, the last included -/
+theorem interpolate_fresh_reproduces_every_knot (o : Obj) (hN : 2 ≤ o.N) (hx : StrictInc o.N o.x)
+    (hst : o.st.corr = false) {k : Nat} (hk : k < o.N) :
+    ∃ o', o.interpolate (o.x k) = .ok (o.pref * o.y k, o') := by
+  have hk0 : o.x 0 ≤ o.x k := by
+    rcases Nat.eq_zero_or_pos k with h | h
+    · subst h; exact le_refl _
+    · exact le_of_lt (hx.lt h hk)
+  have hk1 : o.x k ≤ o.x (o.N - 1) := by
+    rcases Nat.lt_or_ge k (o.N - 1) with h | h
+    · exact le_of_lt (hx.lt h (by omega))
+    · have : k = o.N - 1 := by omega
+      rw [this]
+  obtain ⟨j, o', hl, hj, hb0, hb1⟩ := locate_fresh_bracket o hN hx hst hk0 hk1
+  refine ⟨o', ?_⟩
+  rw [interpolate_eq hl (valueAt_eq_cubicAt hx hj hb0 hb1)]
+  have hjk : j ≤ k := by
+    by_contra h
+    have := hx.lt (show k < j by omega) (by omega); linarith
+  have hkj : k ≤ j + 1 := by
+    by_contra h
+    have := hx.lt (show j + 1 < k by omega) hk; linarith
+  rcases Nat.lt_or_ge j k with h | h
+  · have : k = j + 1 := by omega
+    subst this; rw [cubic_right hx hj]
+  · have : k = j := by omega
+    subst this; rw [cubic_left]
+
+example : ∀ o, mk [0, 1, 3, 7] [5, -2, -2, 11] (-1) (-1) = .ok o →
+    ∃ o', o.interpolate (o.x (o.N - 1)) = .ok (o.pref * o.y (o.N - 1), o') := fun o h => by
+  obtain ⟨hN, hx, hst, _⟩ := mk_ok h
+  exact interpolate_fresh_reproduces_every_knot o (by omega) hx hst (by omega)
 
 /-- the constructor's guards give exactly the hypotheses used above -/
 theorem mk_gives_hypotheses {xs ys : List Rat} {xdim fdim : Rat} {o : Obj} (hmk : mk xs ys xdim fdim = .ok o) :
@@ -309,12 +358,14 @@ theorem interpolate_zone_bound (o : Obj) (hN : 3 ≤ o.N) (hx : StrictInc o.N o.
     have hl : o.locate v = .ok (o.N - 2, { o with st :=
         { jLast := o.N - 2, corr := decide (o.N - 2 ≥ o.st.jLast ∧ o.N - 2 - o.st.jLast < 10) } }) := by
       unfold Obj.locate; rw [locate_zone_right hN hx o.st h0 h1]
-    exact ⟨_, interpolate_eq hl, scale _ _ _ _ ((extrapolation_zone_bound hN hx).1 h0 h1).2⟩
+    exact ⟨_, interpolate_eq hl (valueAt_of_ne (ne_of_gt h0)), scale _ _ _ _ ((extrapolation_zone_bound hN hx).1 h0 h1).2⟩
   · intro h0 h1
     have hl : o.locate v = .ok (0, { o with st :=
         { jLast := 0, corr := decide (0 ≥ o.st.jLast ∧ 0 - o.st.jLast < 10) } }) := by
       unfold Obj.locate; rw [locate_zone_left o.st h0 h1]
-    exact ⟨_, interpolate_eq hl, scale _ _ _ _ ((extrapolation_zone_bound hN hx).2 h0 h1).2⟩
+    have hlt : o.x 0 < o.x (o.N - 1) := hx.lt (by omega) (by omega)
+    exact ⟨_, interpolate_eq hl (valueAt_of_ne (ne_of_lt (lt_trans h1 hlt))),
+      scale _ _ _ _ ((extrapolation_zone_bound hN hx).2 h0 h1).2⟩
 
 example : ∃ o, mk [0, 1, 3, 7] [5, -2, -2, 11] (-1) (-1) = .ok o ∧ 3 ≤ o.N
     ∧ o.x (o.N - 1) < 7 + 1 / 50 ∧ (7 + 1 / 50 : Rat) < o.x (o.N - 1) + (o.x (o.N - 1) - o.x (o.N - 2)) / 100 :=
